@@ -258,7 +258,11 @@ def c14_5(ctx, ss):
                 g = comp[0].generators
                 src = txt(g[0].iter) if len(g) == 1 else ""
                 tgt = isinstance(lp.target, ast.Name) and lp.target.id
-                if names == ["daughters", "mother"] and f"Formatter().parse(__elem__(" in src and txt(comp[0].elt).endswith("[1]"):
+                P = f"__elem__({txt(flow.expand(lp.iter))})"
+                whole = txt(comp[0]).replace("string.", "") in (
+                    f"{{__elem__(Formatter().parse({P}))[1] for t in Formatter().parse({P}) if isinstance(__elem__(Formatter().parse({P}))[1], str)}}".replace(
+                        " for t in", f" for {txt(g[0].target)} in"),)
+                if names == ["daughters", "mother"] and whole:
                     ok = True
                 else:
                     why = f"placeholder comparison is `{txt(e)[:100]}`"
